@@ -66,6 +66,18 @@ CHECKS = {
    text="Two-layer explicit-state exploration of repository histories: (A) BFS over commit / branch&checkout / checkout / merge (fast-forward or true merge) from a one-commit repository, deduplicated on (DAG, branch refs), bounded by commits and branches; (B) every placement of up to 2 tags from a version/non-version/annotated/PEP-440-only alphabet on any commits x HEAD at every branch tip and detached at every commit x committer-date modes (increasing, decreasing, zig-zag); (C) every subset of 8 tag spellings on one commit x HEAD positions x the 3 input formats; (D) 8 work-tree states. Every state is materialised in real git (fast-import), conformance-checked against the model with git commands zerv does not use, then `zerv version -C` is judged against R-GIT: nearest validly tagged commit, highest tag (majority rule in auto mode), distance, dirty, branch, hashes, times, and 'no valid tag' reported as such.",
    note="R-GIT oracle; choice among equal-precedence tags / among members of the nearest-tag antichain left open; octopus merges, shallow clones, worktrees, submodules out of scope; wall cap recorded in evidence (exhaustive=false if hit).",
    technique="explicit-state BFS over repository operations x labelings, each state materialised in real git and judged by a reference model", ref="C02"),
+ "C13": dict(cat="fault_enumeration",
+   text="(a) the flag set is read from Cli::command() at run time; for version and flow in 4 source contexts every single flag x a 37-value adversarial pool (non-ASCII, huge and negative numbers incl. isize::MIN, broken templates, bad chrono formats, malformed RON/JSON, NUL), every pair of flags x a 5-value pool, malformed stdin documents, render/check on nasty version strings, every template function x argument singles and pairs: ~34k in-process runs under catch_unwind (overflow checks on); (b) a strided slice through the real binary plain and with -v (exit/stream protocol, identical stdout), help/version/llm-help; (c) git fault enumeration: a PATH-injected git shim records the N git calls of a fault-free run for 6 repository scenarios x [version, flow], then every k<=N x 6 fault modes (exit 1, exit 128 'not a git repository', garbage output, empty output, SIGKILL, silent exit 1) is injected (thorough: every pair of fault points), plus git missing and bad -C targets.",
+   note="Faults at git-process granularity; stdout/stderr never closed under zerv; pools are adversarial but finite; `zerv` without sub-command (nothing requested, exit 0, empty stdout) is accepted.",
+   technique="exhaustive single/pair enumeration of argument values and exhaustive single (thorough: double) git fault placement via a process shim", ref="C13"),
+ "C14": dict(cat="model_checking",
+   text="~200 argument vectors (presets x clean/ahead/dirty x formats at timestamps straddling UTC midnight, templates with date and hash functions, ts() schemas, flow branch ids, stdin documents with non-ASCII text, three real git repositories whose HEAD times straddle UTC midnight) are each run in separate processes across the full product TZ x locale x working directory x unrelated environment x repetition with the wall clock pinned by an LD_PRELOAD seam; every (status, stdout, stderr) must equal the (UTC, C) reference; independent expectations from R-CAL / R-SIP; a second clock value must change nothing for clock-independent inputs and only timestamp-derived text otherwise; relative -C and in-repo cwd equal absolute -C.",
+   note="Independence is shown for the named environment dimensions only; the clock is owned by the seam (self-tested).",
+   technique="exhaustive product enumeration of environments per argument vector with a pinned clock (differential across processes)", ref="C14"),
+ "C18": dict(cat="model_checking",
+   text="Keywords are read with inspect.signature and the clap metadata is dumped from the tree under test; every keyword singly with None, False and typed valid values (ints 0 and 3, both booleans, every enumerated value), every pair of keywords (thorough: triples) is called through the real Python functions in a prepared git repository with argv captured at subprocess.run; None/False must add nothing, every emitted flag must exist for the sub-command with matching arity, the return value must equal the stripped stdout of the binary run with an independently built argv, and a failing command must raise RuntimeError.",
+   note="Independent argv uses long option names from the clap dump plus a 2-entry exception table; binary built from /repo; clock pinned.",
+   technique="exhaustive keyword single/pair(/triple) enumeration against an independently built command line", ref="C18"),
 }
 
 def main():
@@ -89,7 +101,7 @@ def main():
         "version": 1,
         "setup_cmd": "./setup.sh",
         "hooks": {
-            "guard": "none",
+            "guard": "none (no source hooks in /repo)",
             "enable": "no source hooks: the clock seam is an LD_PRELOAD shim (shims/faketime.c), the git seam a PATH-injected shim; checks build /repo unmodified",
             "baseline_off_cmd": "/verif/tools/run_suite.sh /repo",
             "source_commits": [],
